@@ -13,6 +13,7 @@ import (
 
 func init() {
 	engines["vc"] = vc.Run
+	replayers["compile-probe"] = func(env *core.Env, p *load.Program, prop string, o *core.Obl) { vc.ReplayProbe(env, p, prop, o) }
 	replayers["opfunc"] = func(env *core.Env, p *load.Program, prop string, o *core.Obl) { vc.ReplayOp(env, p, prop, o) }
 }
 
@@ -56,7 +57,11 @@ func cmdVC(args []string) int {
 		if strings.HasPrefix(k, "lemma:") {
 			lemmas = append(lemmas, strings.TrimPrefix(k, "lemma:"))
 		} else if k == "--all" {
-			funcs = append(funcs, e.Spec.Order...)
+			for _, k := range e.Spec.Order {
+				if c := e.Spec.Contracts[k]; c != nil && !c.Inline {
+					funcs = append(funcs, k)
+				}
+			}
 			for _, l := range e.Spec.Lemmas {
 				lemmas = append(lemmas, l.Name)
 			}
